@@ -9,6 +9,8 @@
      OPT <level>
      SCAN <file.mir>
      LOADLINK interp|gen|lazy|lazybb
+     RELOADLINK <iface>     MIR_load_module of every module loaded so far ONCE MORE (function thunks go back
+                            to the undefined-interface stub), then MIR_link with the interface
      SNAP <tag>             print "T <tag> <func> <hash>" for every function item, remember first text
      CHECKTEXT <tag>        compare every function with its first remembered text
      GEN <func>
@@ -247,6 +249,24 @@ int main (int argc, char **argv) {
       else
         MIR_link (ctx, MIR_set_interp_interface, resolver);
       printf ("LINKED %s\n", w[1]);
+      phase = "run";
+    } else if (strcmp (w[0], "RELOADLINK") == 0 && n == 2) {
+      phase = "reload";
+      for (MIR_module_t m = DLIST_HEAD (MIR_module_t, *MIR_get_module_list (ctx)); m != NULL && last_loaded != NULL;
+           m = DLIST_NEXT (MIR_module_t, m)) {
+        MIR_load_module (ctx, m);
+        if (m == last_loaded) break;
+      }
+      phase = "relink";
+      if (strcmp (w[1], "gen") == 0)
+        MIR_link (ctx, MIR_set_gen_interface, resolver);
+      else if (strcmp (w[1], "lazy") == 0)
+        MIR_link (ctx, MIR_set_lazy_gen_interface, resolver);
+      else if (strcmp (w[1], "lazybb") == 0)
+        MIR_link (ctx, MIR_set_lazy_bb_gen_interface, resolver);
+      else
+        MIR_link (ctx, MIR_set_interp_interface, resolver);
+      printf ("RELINKED %s\n", w[1]);
       phase = "run";
     } else if ((strcmp (w[0], "SNAP") == 0 || strcmp (w[0], "CHECKTEXT") == 0) && n == 2) {
       int snap = w[0][0] == 'S', changed = 0, total = 0;
